@@ -14,7 +14,16 @@ from score ties, TrimmedMean) 64 (m+n) eps; PCGrad (piecewise-linear, non-expans
 1e-10; IMTLG / AlignedMTL 64 (m+n) cond^2 eps and ConFIG 64 (m+n) cond eps (pinv / eigh of the Gramian resp. of the
 unit rows); UPGrad / DualProj 1e-7 (exact active-set QP on a Gramian regularised by reg_eps = 1e-4: Lipschitz constant
 1/reg_eps); MGDA 1e-6 (Frank-Wolfe iterates on generic inputs, no argmin ties); CAGrad 1e-3 (CLARABEL stops at gap
-1e-8 on a problem whose reduced coordinates depend on SVD signs: argmin accuracy ~ sqrt(gap)); NashMTL 1e-5 (ECOS).
+1e-8 on a problem whose reduced coordinates depend on SVD signs: argmin accuracy ~ sqrt(gap)).
+NashMTL: NO tolerance can be derived for two runs on differently ROUNDED Gramians.  Its outer loop runs <= 20 linearised
+ECOS solves and stops on |G a - 1/a| < 1e-3 evaluated on the Frobenius-normalised Gramian (not the fixed-point equation of
+the problem it solves), so the returned weights are not a converged quantity and the number of iterations can change with
+rounding-level changes of J J^T (measured on the unchanged tree: 1e-2 relative under a column permutation of a 6x4
+matrix, 3e-3 under 20000 zero columns next to a 5x5 matrix of condition number 30).  For the colperm / zerocol clauses
+NashMTL is therefore run ONLY on small-integer matrices times a power of two ('ints'): every product and partial sum of
+J J^T is exact in any summation order / blocking, so the solver sees bit-identical input whatever the column layout and
+the closed-form tolerance 64 (m+n) eps applies (only the final combination w @ J is rounded).  The span clause uses one
+input only and keeps all families.
 GradDrop is random per column and hence outside "every deterministic aggregator".
 None of these tolerances depends on the number of inserted zero columns, on the basis (Q) or on the scale.
 
@@ -49,7 +58,9 @@ RULE = ("aggregator x matrix family (gauss, nonconflict, rowscales over 2 decade
         "zero columns at the start / inside / at the end) + the threshold families: orthogonal on wide (n <= 64) "
         "conflicting matrices with sigma_max around norm_eps and 100 norm_eps under Haar and row-concentrating "
         "Householder Q; scales log-uniform over 1e-12..1e12; 300..20000 inserted zero columns. PCGrad, Random: torch.manual_seed(case seed) before every "
-        "call; NashMTL: a fresh instance per call; Krum: cases whose selection is within 1e-6 of a score tie are "
+        "call; NashMTL: a fresh instance per call, and in colperm / zerocol only small-integer matrices x 2^k whose Gramian "
+        "is exact in every summation order (bit-identical solver input; no tolerance is derivable for its truncated "
+        "iteration under rounding-level changes of J J^T); Krum: cases whose selection is within 1e-6 of a score tie are "
         "trivial. distinct = (clause, aggregator spec, matrix spec, transformation). non-trivial: m >= 2, n >= 2, "
         "non-zero matrix, transformation not the identity (span: rank < n)")
 BOUNDS = "m <= 6 rows, n <= 8 columns (threshold family n <= 64; <= 20000 inserted zero columns), float64 (float32 for the closed-form aggregators in colperm / zerocol)"
@@ -91,10 +102,9 @@ def _thr_spec(rng, agg):
 
 def _matrix_spec(rng, agg, clause, n_fixed=None, wide=False, cond=None):
     spec = _matrix_spec0(rng, agg, clause, n_fixed)
-    if wide and agg["name"] != "NashMTL":
-        # NashMTL stays at 1e-2..1e2: its ECOS problem contains log(alpha |J J^T|), the solver's absolute accuracy (a
-        # trusted primitive) and its success depend on the scale, so the 1e-5 tolerance is derived for these scales only
-        spec["scale"] = _wide_scale(rng)
+    if wide:
+        # 'ints' (NashMTL): a power of two keeps the Gramian exact
+        spec["scale"] = 2.0 ** rng.randint(-40, 40) if spec["kind"] == "ints" else _wide_scale(rng)
     if cond is not None and spec["kind"] == "wellcond":
         spec["cond"] = cond
     return spec
@@ -103,6 +113,9 @@ def _matrix_spec(rng, agg, clause, n_fixed=None, wide=False, cond=None):
 def _matrix_spec0(rng, agg, clause, n_fixed=None):
     name = agg["name"]
     m_min = 4 if name == "Krum" else (3 if name == "TrimmedMean" else 2)
+    if name == "NashMTL" and clause in ("colperm", "zerocol", "orthogonal"):
+        return {"kind": "ints", "m": rng.randint(2, 6), "n": n_fixed if n_fixed is not None else rng.randint(2, 8),
+                "seed": rng.randrange(10**9), "scale": 2.0 ** rng.choice([-7, 0, 7]), "dtype": "float64"}
     if name in PINV_BASED:
         m = rng.randint(2, 5)
         n = n_fixed if n_fixed is not None else rng.randint(m + (1 if clause == "span" else 0), 8)
@@ -175,13 +188,6 @@ def cases(tier, seed, focus=None):
                         "q": rng.choice(["haar", "house_row"]), "qrow": rng.randrange(6),
                         "qseed": rng.randrange(10**6), "rseed": rng.randrange(10**6)})
     for agg in LAYOUT_AGGS:
-        if agg["name"] == "NashMTL":
-            # NashMTL gets none of the new families.  Its outer loop stops as soon as |G a - 1/a| < 1e-3, so the result
-            # is only accurate to that criterion and the number of outer iterations can change with the ROUNDING of
-            # J J^T (thousands of zero columns change the blocking of the product; measured: 3e-3 relative on a 5x5
-            # matrix of condition number 30) - no tolerance tighter than the stop criterion can be derived - and its
-            # ECOS problem contains log(alpha |J J^T|), so its success depends on the scale (see _matrix_spec).
-            continue
         for j in range(8 if thorough else 3):  # many zero columns (parameters that influence nothing)
             count = [20000, 3000, 300][j % 3]
             # the largest count goes with the worst conditioning whose rank is still unambiguous (most sensitive probe
@@ -211,11 +217,28 @@ def _apply(agg_spec, J, rseed, weights=False):
     return agg(J)
 
 
+def _exact_gramian(Jn):
+    """Every entry is an integer q_ij times ONE power of two with n max|q|^2 < 2^53: all products and partial sums of
+    J J^T are exact, in any summation order."""
+    import math
+
+    vals = [float(v) for v in Jn.reshape(-1) if v != 0]
+    if not vals:
+        return True
+    low = []
+    for v in vals:  # exponent of the lowest set bit of v
+        mant, ex = math.frexp(abs(v))
+        M = int(mant * 2**53)
+        low.append(ex - 53 + ((M & -M).bit_length() - 1))
+    qmax = max(abs(v) for v in vals) / 2.0 ** min(low)
+    return qmax * qmax * max(1, Jn.shape[1]) < 2.0**53
+
+
 def _rtol(agg_spec, Jn, eps):
     name = agg_spec["name"]
     m, n = Jn.shape
     base = 64 * (m + n) * eps
-    if name in CLOSED:
+    if name in CLOSED or (name == "NashMTL" and _exact_gramian(Jn)):
         return base
     if name == "PCGrad":
         return max(base, 1e-10)
@@ -226,7 +249,8 @@ def _rtol(agg_spec, Jn, eps):
             return base * float(s[0] / s[-1])
         s = np.linalg.svd(Jn, compute_uv=False)
         return base * float(s[0] / s[-1]) ** 2
-    return {"UPGrad": 1e-7, "DualProj": 1e-7, "MGDA": 1e-6, "CAGrad": 1e-3, "NashMTL": 1e-5}[name]
+    # (a NashMTL case whose Gramian is not exact does not occur in the generated cases: no derived tolerance exists)
+    return {"UPGrad": 1e-7, "DualProj": 1e-7, "MGDA": 1e-6, "CAGrad": 1e-3}[name]
 
 
 def _scale(agg_spec, J, rseed):
